@@ -124,6 +124,9 @@ class Engine:
     def size_of(self, ty, depth=0):
         if ty is None:
             return None
+        while ty.get("k") == "adt" and ty["def"] in ("core::mem::ManuallyDrop", "core::mem::MaybeUninit") and ty.get("args") and depth < 6:
+            ty = adt_args(ty)[0]   # transparent wrappers: the size of what they wrap
+            depth += 1
         if ty.get("k") == "adt" and ty["def"] in self.a.db.adts and ty["def"] != "GenericArray" and depth < 4:
             # a crate-local struct: a transparent single-field wrapper, or a repr(C) run of same-element fields (no padding)
             lay = self.field_layout(ty["def"], ty, depth + 1)
@@ -241,8 +244,15 @@ class Engine:
             if sz is None:
                 return None
             return (self.whole(("arg", v[2]), sz), t)
+        if isinstance(v, tuple) and len(v) == 3 and v[0] == "V" and v[1] == "cell@" and isinstance(v[2], tuple) and len(v[2]) == 2 and isinstance(v[2][0], tuple) and v[2][0][1] == () \
+                and v[2][0][0] in self.content:
+            # a whole local read after calls that wrote into it through a pointer: what the replay says it holds now
+            b_ = v[2][0][0]
+            return (self.content[b_], ty if ty is not None else (a.local_ty(b_[1]) if b_[0] == "local" else None))
         if isinstance(v, tuple) and v[0] == "A" and isinstance(v[1], tuple) and v[1][0] == "adt":
             path = v[1][1]
+            if ty is not None and ty.get("k") == "adt" and ty["def"] in ("core::mem::ManuallyDrop", "core::mem::MaybeUninit") and path != ty["def"] and ty.get("args"):
+                return self.prov(v, adt_args(ty)[0])   # the wrapper is transparent: the value of the inner type, seen through it
             if path in ("core::mem::ManuallyDrop", "core::mem::MaybeUninit") and len(v[2]) >= 1:
                 inner = adt_args(ty)[0] if ty is not None and ty.get("k") == "adt" and ty.get("args") else None
                 return self.prov(v[2][0], inner)
@@ -337,6 +347,23 @@ class Engine:
                     return False
                 self.content[p[1]] = nc
                 self.log.append("write @%r+%r <- %r" % (p[1], p[2], pv[0]))
+            elif fn in ("core::ptr::replace", "core::mem::replace") and c.args[0][0] == "P" and c.targs:
+                # `replace(dst, v)`: what dst held is the result, v takes its place (a read followed by a write of the same extent)
+                p = c.args[0]
+                ty = c.targs[0]
+                cont = self.content_of(p[1], c.mem)
+                if cont is None:
+                    return False
+                sl = self.slice(cont, p[2], p[2] + te.size(ty))
+                pv = self.prov(c.args[1], ty)
+                if sl is None or pv is None:
+                    return bool(self.giveup("replace at %s: provenance of the old or the new value unknown" % (c.at,)))
+                nc = self.overwrite(cont, p[2], pv[0])
+                if nc is None:
+                    return False
+                self.content[p[1]] = nc
+                self.valprov[repr(c.ret)] = (sl, ty)
+                self.log.append("replace @%r+%r: out %r, in %r" % (p[1], p[2], sl, pv[0]))
             elif fn in ("core::ptr::copy", "core::ptr::copy_nonoverlapping") and c.args[0][0] == "P" and c.args[1][0] == "P":
                 n = a.as_poly(c.args[2])
                 if n is None:
@@ -374,6 +401,28 @@ class Engine:
                     return False
                 self.content[p[1]] = nc
                 self.log.append("swap(%r, %r)" % (i, j))
+            elif fn == "core::mem::swap" and c.args[0][0] == "P" and c.args[1][0] == "P" and c.targs:
+                # the two objects exchange their contents (same type, so same extent)
+                p, q = c.args[0], c.args[1]
+                S = te.size(c.targs[0])
+                cp, cq = self.content_of(p[1], c.mem), self.content_of(q[1], c.mem)
+                if cp is None or cq is None:
+                    return False
+                sp, sq = self.slice(cp, p[2], p[2] + S), self.slice(cq, q[2], q[2] + S)
+                if sp is None or sq is None:
+                    return False
+                if p[1] == q[1]:
+                    nc = self.overwrite(cp, p[2], sq)
+                    nc = self.overwrite(nc, q[2], sp) if nc is not None else None
+                    if nc is None:
+                        return False
+                    self.content[p[1]] = nc
+                else:
+                    np_, nq_ = self.overwrite(cp, p[2], sq), self.overwrite(cq, q[2], sp)
+                    if np_ is None or nq_ is None:
+                        return False
+                    self.content[p[1]], self.content[q[1]] = np_, nq_
+                self.log.append("mem::swap @%r+%r <-> @%r+%r" % (p[1], p[2], q[1], q[2]))
             elif c.key == "const_transmute" and c.targs:
                 pv = self.prov(c.args[0], c.targs[0])
                 if pv is None:
